@@ -328,32 +328,53 @@ Proof.
   - destruct (mem_str k' ks); [|right]; apply IH; assumption.
 Qed.
 
-Lemma sections_spec m l :
-  sections m l = filter (fun s => match assoc s l with Some (CDict x) => negb (leafless (CDict x)) | _ => false end) (map fst m).
+Lemma is_section_spec md l s : is_section md l s = spec_section md l s.
 Proof.
-  unfold sections. apply filter_ext. intros s. destruct (assoc s l) as [[| | |x|]|]; try reflexivity.
-  apply has_leaf_leafless.
+  unfold is_section, spec_section. destruct (assoc s l) as [[| | |x|]|]; try reflexivity.
+  destruct md; try reflexivity; apply has_leaf_leafless.
 Qed.
 
-Lemma select_spec sb l :
-  select sb l =
-  match spec_selected sb l with
-  | Some s => (Some s, remove_keys (discarded sb l)
+Lemma sections_spec md m l : sections md m l = filter (spec_section md l) (map fst m).
+Proof. unfold sections. apply filter_ext. intros s. apply is_section_spec. Qed.
+
+Lemma select_spec md sb l :
+  select md sb l =
+  match spec_selected md sb l with
+  | Some s => (Some s, remove_keys (discarded md sb l)
                          (match assoc (s_dest sb) l with Some (CStr _) => l | _ => set_key (s_dest sb) (CStr s) l end))
   | None => (None, l)
   end.
 Proof.
   unfold select, discarded, spec_selected. rewrite sections_spec.
   destruct (assoc (s_dest sb) l) as [[| |s0| |]|];
-    try (destruct (filter _ (map fst (s_map sb))) as [|s t]; reflexivity); try reflexivity.
+    try (destruct (filter _ (map fst (s_map sb))) as [|s t]; destruct md; reflexivity); destruct md; try reflexivity.
 Qed.
 
-Lemma in_select sb l k w :
-  In (k, w) l -> k <> s_dest sb -> mem_str k (discarded sb l) = false -> In (k, w) (snd (select sb l)).
+Lemma in_select md sb l k w :
+  In (k, w) l -> k <> s_dest sb -> mem_str k (discarded md sb l) = false -> In (k, w) (snd (select md sb l)).
 Proof.
-  intros HIn Hne Hm. rewrite select_spec. destruct (spec_selected sb l) as [s|]; [|exact HIn].
+  intros HIn Hne Hm. rewrite select_spec. destruct (spec_selected md sb l) as [s|]; [|exact HIn].
   simpl. apply in_remove_keys; [|exact Hm].
   destruct (assoc (s_dest sb) l) as [[| |s0| |]|]; try (apply in_set_key; assumption). exact HIn.
+Qed.
+
+Lemma assoc_none_mem {A} k (m : list (str * A)) : assoc k m = None -> mem_str k (map fst m) = false.
+Proof.
+  induction m as [|[k' a] t IH]; simpl; [reflexivity|].
+  destruct (str_eqb k k'); [discriminate|exact IH].
+Qed.
+
+Lemma mem_filter_false k (f : str -> bool) xs : mem_str k xs = false -> mem_str k (filter f xs) = false.
+Proof.
+  induction xs as [|x t IH]; simpl; [reflexivity|].
+  intros H. apply orb_false_iff in H. destruct H as [H1 H2].
+  destruct (f x); simpl; [rewrite H1|]; auto.
+Qed.
+
+Lemma discarded_sub md sb l k : mem_str k (map fst (s_map sb)) = false -> mem_str k (discarded md sb l) = false.
+Proof.
+  intros H. unfold discarded. destruct (spec_selected md sb l); [|reflexivity].
+  destruct md; try (destruct (Nat.ltb _ _); [|reflexivity]); repeat apply mem_filter_false; exact H.
 Qed.
 
 Definition top_entry (chk : list str -> decl -> cv -> res) (sectionchk : str -> args -> cv -> res)
@@ -404,8 +425,8 @@ Lemma schk_und fuel key d w : schk fuel key d w = Ok -> chk_und d w.
 Proof. apply chk_action_und. apply nested_und. Qed.
 
 (* the parts of an accepting run *)
-Lemma run_ok_nosub fuel p l :
-  p_sub p = None -> run fuel p (CDict l) = Ok ->
+Lemma run_ok_nosub md fuel p l :
+  p_sub p = None -> run md fuel p (CDict l) = Ok ->
   Forall ev_ok (walk (schk fuel) (p_args p) None None [] (CDict l)) /\ check_required1 [] (p_args p) (CDict l) = Ok.
 Proof.
   unfold run. intros Hs H. apply bind_ok in H. destruct H as [_ H]. rewrite Hs in H.
@@ -413,21 +434,21 @@ Proof.
   apply first_failure_ok in H1. unfold top_walk in H1. rewrite Hs in H1. exact H1.
 Qed.
 
-Theorem accept_no_undeclared fuel p cfg :
-  run fuel p cfg = Ok -> und_top true true true p cfg = [].
+Theorem accept_no_undeclared md fuel p cfg :
+  run md fuel p cfg = Ok -> und_top md true true true p cfg = [].
 Proof.
   intros H. destruct cfg as [| | |l|]; try reflexivity.
   unfold und_top. destruct (p_sub p) as [sb|] eqn:Hs.
   - unfold run in H. apply bind_ok in H. destruct H as [_ H]. rewrite Hs in H.
-    destruct (select sb l) as [chosen l'] eqn:S.
+    destruct (select md sb l) as [chosen l'] eqn:S.
     destruct (s_req sb && _); [discriminate|].
     apply bind_ok in H. destruct H as [H1 _]. apply first_failure_ok in H1.
     apply flat_map_nil. intros [k w] HIn. simpl.
     destruct (str_eqb k (s_dest sb)) eqn:Ed; [reflexivity|].
     destruct (assoc k (s_map sb)) as [sa|] eqn:Em.
-    + destruct (mem_str k (discarded sb l)) eqn:Md; [reflexivity|].
+    + destruct (mem_str k (discarded md sb l)) eqn:Md; [reflexivity|].
       assert (In (k, w) l') as HIn'.
-      { replace l' with (snd (select sb l)) by (rewrite S; reflexivity).
+      { replace l' with (snd (select md sb l)) by (rewrite S; reflexivity).
         apply in_select; auto. apply str_eqb_false_ne; exact Ed. }
       pose proof (top_entries _ _ _ _ _ Hs H1 k w HIn') as FE.
       destruct (is_dict w) eqn:D.
@@ -435,14 +456,9 @@ Proof.
         eapply top_entry_section; eauto.
       * rewrite und_not_dict; auto.
     + assert (In (k, w) l') as HIn'.
-      { replace l' with (snd (select sb l)) by (rewrite S; reflexivity).
+      { replace l' with (snd (select md sb l)) by (rewrite S; reflexivity).
         apply in_select; auto. apply str_eqb_false_ne; exact Ed.
-        unfold discarded. destruct (spec_selected sb l); [|reflexivity].
-        destruct (mem_str k (filter _ (filter _ (map fst (s_map sb))))) eqn:M; [|reflexivity].
-        apply mem_str_In in M. apply filter_In in M. destruct M as [M _]. apply filter_In in M. destruct M as [M _].
-        exfalso. clear -M Em. induction (s_map sb) as [|[k' a'] t IH]; [destruct M|].
-        simpl in *. destruct (str_eqb k k') eqn:E; [discriminate|].
-        destruct M as [M|M]; [subst; rewrite str_eqb_refl in E; discriminate|auto]. }
+        apply discarded_sub. apply assoc_none_mem. exact Em. }
       pose proof (top_entries _ _ _ _ _ Hs H1 k w HIn') as FE.
       apply (walk_und (schk fuel) (schk_und fuel) (CDict [(k, w)]) (p_args p) None None []).
       eapply top_entry_arg; eauto.
@@ -710,25 +726,6 @@ Proof.
   - destruct (str_eqb k k'); [reflexivity|exact IH].
 Qed.
 
-Lemma assoc_none_mem {A} k (m : list (str * A)) : assoc k m = None -> mem_str k (map fst m) = false.
-Proof.
-  induction m as [|[k' a] t IH]; simpl; [reflexivity|].
-  destruct (str_eqb k k'); [discriminate|exact IH].
-Qed.
-
-Lemma mem_filter_false k (f : str -> bool) xs : mem_str k xs = false -> mem_str k (filter f xs) = false.
-Proof.
-  induction xs as [|x t IH]; simpl; [reflexivity|].
-  intros H. apply orb_false_iff in H. destruct H as [H1 H2].
-  destruct (f x); simpl; [rewrite H1|]; auto.
-Qed.
-
-Lemma discarded_sub sb l k : mem_str k (map fst (s_map sb)) = false -> mem_str k (discarded sb l) = false.
-Proof.
-  intros H. unfold discarded. destruct (spec_selected sb l); [|reflexivity].
-  apply mem_filter_false. apply mem_filter_false. exact H.
-Qed.
-
 Lemma mem_filter_ne s xs : mem_str s (filter (fun x => negb (str_eqb x s)) xs) = false.
 Proof.
   induction xs as [|x t IH]; simpl; [reflexivity|].
@@ -737,13 +734,16 @@ Proof.
   apply str_eqb_spec in E2. subst. rewrite str_eqb_refl in E. discriminate.
 Qed.
 
-Lemma discarded_selected sb l s : spec_selected sb l = Some s -> mem_str s (discarded sb l) = false.
-Proof. intros H. unfold discarded. rewrite H. apply mem_filter_ne. Qed.
-
-Lemma assoc_select sb l k :
-  k <> s_dest sb -> mem_str k (discarded sb l) = false -> assoc k (snd (select sb l)) = assoc k l.
+Lemma discarded_selected md sb l s : spec_selected md sb l = Some s -> mem_str s (discarded md sb l) = false.
 Proof.
-  intros Hne Hm. rewrite select_spec. destruct (spec_selected sb l) as [s|]; [|reflexivity].
+  intros H. unfold discarded. rewrite H.
+  destruct md; try (destruct (Nat.ltb _ _); [|reflexivity]); apply mem_filter_ne.
+Qed.
+
+Lemma assoc_select md sb l k :
+  k <> s_dest sb -> mem_str k (discarded md sb l) = false -> assoc k (snd (select md sb l)) = assoc k l.
+Proof.
+  intros Hne Hm. rewrite select_spec. destruct (spec_selected md sb l) as [s|]; [|reflexivity].
   simpl. rewrite assoc_remove_keys by exact Hm.
   destruct (assoc (s_dest sb) l) as [[| |s0| |]|]; try (apply assoc_set_key; assumption). reflexivity.
 Qed.
@@ -788,17 +788,17 @@ Qed.
 Lemma filter_app_nil {A} (f : A -> bool) a b : filter f (a ++ b) = [] -> filter f a = [] /\ filter f b = [].
 Proof. rewrite filter_app. apply app_eq_nil. Qed.
 
-Theorem accept_required fuel p cfg :
-  wf_parser p = true -> run fuel p cfg = Ok -> missing_required p cfg = [].
+Theorem accept_required md fuel p cfg :
+  wf_parser p = true -> run md fuel p cfg = Ok -> missing_required md p cfg = [].
 Proof.
   intros W H. destruct cfg as [| | |l|]; try reflexivity.
   unfold missing_required. destruct (p_sub p) as [sb|] eqn:Hs.
   - unfold run in H. apply bind_ok in H. destruct H as [_ H]. rewrite Hs in H.
-    pose proof (select_spec sb l) as SS.
-    destruct (select sb l) as [chosen l'] eqn:S.
-    assert (Hl' : l' = snd (select sb l)) by (rewrite S; reflexivity).
-    assert (Hch : chosen = spec_selected sb l).
-    { destruct (spec_selected sb l); inversion SS; reflexivity. }
+    pose proof (select_spec md sb l) as SS.
+    destruct (select md sb l) as [chosen l'] eqn:S.
+    assert (Hl' : l' = snd (select md sb l)) by (rewrite S; reflexivity).
+    assert (Hch : chosen = spec_selected md sb l).
+    { destruct (spec_selected md sb l); inversion SS; reflexivity. }
     clear SS.
     destruct (s_req sb && _) eqn:Hbad; [discriminate|].
     apply bind_ok in H. destruct H as [H1 H]. apply first_failure_ok in H1.
@@ -857,8 +857,8 @@ Proof.
 Qed.
 
 (* ---- the guarded forms used by the correspondence judge ------------------------------------------------ *)
-Lemma guard_zero_lengths p cfg :
-  guard_class p cfg = 0%N -> length (und_top true true true p cfg) = length (undeclared p cfg).
+Lemma guard_zero_lengths md p cfg :
+  guard_class md p cfg = 0%N -> length (und_top md true true true p cfg) = length (undeclared md p cfg).
 Proof.
   unfold guard_class, undeclared.
   destruct (Nat.ltb _ _); [discriminate|].
@@ -868,29 +868,29 @@ Proof.
   intros _. apply Nat.eqb_eq. exact E.
 Qed.
 
-Theorem accept_no_undeclared_guarded fuel p cfg :
-  guard_class p cfg = 0%N -> run fuel p cfg = Ok -> undeclared p cfg = [].
+Theorem accept_no_undeclared_guarded md fuel p cfg :
+  guard_class md p cfg = 0%N -> run md fuel p cfg = Ok -> undeclared md p cfg = [].
 Proof.
-  intros G H. apply guard_zero_lengths in G. rewrite (accept_no_undeclared _ _ _ H) in G.
+  intros G H. apply guard_zero_lengths in G. rewrite (accept_no_undeclared _ _ _ _ H) in G.
   apply length_zero_iff_nil. symmetry. exact G.
 Qed.
 
-Theorem accept_sound fuel p cfg :
-  wf_parser p = true -> guard_class p cfg = 0%N -> run fuel p cfg = Ok -> spec_ok p cfg Accepted = true.
+Theorem accept_sound md fuel p cfg :
+  wf_parser p = true -> guard_class md p cfg = 0%N -> run md fuel p cfg = Ok -> spec_ok md p cfg Accepted = true.
 Proof.
   intros W G H. unfold spec_ok.
-  rewrite (accept_no_undeclared_guarded _ _ _ G H), (accept_required _ _ _ W H). reflexivity.
+  rewrite (accept_no_undeclared_guarded _ _ _ _ G H), (accept_required _ _ _ _ W H). reflexivity.
 Qed.
 
 (* a required subcommand: an accepted configuration selects a declared one *)
-Theorem accept_required_subcommand fuel p sb l :
-  wf_parser p = true -> p_sub p = Some sb -> s_req sb = true -> run fuel p (CDict l) = Ok ->
-  exists s sa, spec_selected sb l = Some s /\ assoc s (s_map sb) = Some sa.
+Theorem accept_required_subcommand md fuel p sb l :
+  wf_parser p = true -> p_sub p = Some sb -> s_req sb = true -> run md fuel p (CDict l) = Ok ->
+  exists s sa, spec_selected md sb l = Some s /\ assoc s (s_map sb) = Some sa.
 Proof.
-  intros W Hs Hr H. pose proof (accept_required _ _ _ W H) as M.
+  intros W Hs Hr H. pose proof (accept_required _ _ _ _ W H) as M.
   unfold missing_required in M. rewrite Hs, Hr in M.
   apply app_eq_nil in M. destruct M as [_ M]. apply app_eq_nil in M. destruct M as [_ M].
-  destruct (spec_selected sb l) as [s|]; [|discriminate].
+  destruct (spec_selected md sb l) as [s|]; [|discriminate].
   destruct (assoc s (s_map sb)) as [sa|] eqn:E; [|discriminate].
   exists s, sa. split; [reflexivity|exact E].
 Qed.
@@ -915,50 +915,50 @@ Definition s_test : str := [116;101;115;116]%N.
    a List[dataclass] parameter, a List[dataclass] argument and a required subcommand; its valid configuration is
    accepted, lies inside the guard, and the parser is well-formed *)
 Lemma example_accept :
-  wf_parser ex_p = true /\ guard_class ex_p ex_c = 0%N /\ run 24 ex_p ex_c = Ok /\
-  undeclared ex_p ex_c = [] /\ missing_required ex_p ex_c = [].
+  wf_parser ex_p = true /\ guard_class MDefaults ex_p ex_c = 0%N /\ run MDefaults 24 ex_p ex_c = Ok /\
+  undeclared MDefaults ex_p ex_c = [] /\ missing_required MDefaults ex_p ex_c = [].
 Proof. vm_compute. repeat split. Qed.
 
 (* the same configuration with a foreign key in a list item inside init_args / with the required key of the selected
    subcommand removed: both rejected, the error carries the key *)
 Lemma example_reject_unknown :
-  exists ctx, run 24 ex_p ex_c_bad = Err (EUnknown ctx FKey [s_zz]) /\ In (ctx ++ [K s_zz]) (undeclared ex_p ex_c_bad).
+  exists ctx, run MDefaults 24 ex_p ex_c_bad = Err (EUnknown ctx FKey [s_zz]) /\ In (ctx ++ [K s_zz]) (undeclared MDefaults ex_p ex_c_bad).
 Proof. eexists. vm_compute. split; [reflexivity|]. left; reflexivity. Qed.
 
 Lemma example_reject_missing :
-  exists ks, run 24 ex_p ex_c_miss = Err (EMissing [] ks) /\ missing_required ex_p ex_c_miss = map (map K) ks.
+  exists ks, run MDefaults 24 ex_p ex_c_miss = Err (EMissing [] ks) /\ missing_required MDefaults ex_p ex_c_miss = map (map K) ks.
 Proof. eexists. vm_compute. split; reflexivity. Qed.
 
 (* finding foreign-key-empty-mapping *)
 Lemma empty_mapping_refuted :
-  run 24 w1_p w1_c = Ok /\ undeclared w1_p w1_c = [[K s_zz]] /\ guard_class w1_p w1_c = 1%N.
+  run MDefaults 24 w1_p w1_c = Ok /\ undeclared MDefaults w1_p w1_c = [[K s_zz]] /\ guard_class MDefaults w1_p w1_c = 1%N.
 Proof. vm_compute. repeat split. Qed.
 
 (* finding foreign-key-in-discarded-subcommand-section *)
 Lemma discarded_section_refuted :
-  run 24 w2_p w2_c = Ok /\ undeclared w2_p w2_c = [[K s_test; K s_zz]] /\ guard_class w2_p w2_c = 2%N.
+  run MDefaults 24 w2_p w2_c = Ok /\ undeclared MDefaults w2_p w2_c = [[K s_test; K s_zz]] /\ guard_class MDefaults w2_p w2_c = 2%N.
 Proof. vm_compute. repeat split. Qed.
 
 (* finding foreign-key-beside-class-path-misnamed *)
 Lemma class_path_misnamed_refuted :
-  run 24 w3_p w3_c = Err (EUnknown [K s_w] FKey [s_class_path]) /\
-  undeclared w3_p w3_c = [[K s_w; K s_zz]] /\ spec_ok w3_p w3_c (RejUnknown [s_class_path]) = false /\
-  guard_class w3_p w3_c = 3%N.
+  run MDefaults 24 w3_p w3_c = Err (EUnknown [K s_w] FKey [s_class_path]) /\
+  undeclared MDefaults w3_p w3_c = [[K s_w; K s_zz]] /\ spec_ok MDefaults w3_p w3_c (RejUnknown [s_class_path]) = false /\
+  guard_class MDefaults w3_p w3_c = 3%N.
 Proof. vm_compute. repeat split. Qed.
 
 Lemma empty_mapping_refuted_ex :
-  exists fuel p cfg, run fuel p cfg = Ok /\ undeclared p cfg <> [] /\ guard_class p cfg = 1%N.
-Proof. exists 24%nat, w1_p, w1_c. destruct empty_mapping_refuted as [A [B C]]. rewrite B. repeat split; auto; discriminate. Qed.
+  exists md fuel p cfg, run md fuel p cfg = Ok /\ undeclared md p cfg <> [] /\ guard_class md p cfg = 1%N.
+Proof. exists MDefaults, 24%nat, w1_p, w1_c. destruct empty_mapping_refuted as [A [B C]]. rewrite B. repeat split; auto; discriminate. Qed.
 
 Lemma discarded_section_refuted_ex :
-  exists fuel p cfg, run fuel p cfg = Ok /\ undeclared p cfg <> [] /\ guard_class p cfg = 2%N.
-Proof. exists 24%nat, w2_p, w2_c. destruct discarded_section_refuted as [A [B C]]. rewrite B. repeat split; auto; discriminate. Qed.
+  exists md fuel p cfg, run md fuel p cfg = Ok /\ undeclared md p cfg <> [] /\ guard_class md p cfg = 2%N.
+Proof. exists MDefaults, 24%nat, w2_p, w2_c. destruct discarded_section_refuted as [A [B C]]. rewrite B. repeat split; auto; discriminate. Qed.
 
 Lemma class_path_misnamed_refuted_ex :
-  exists fuel p cfg ctx fam key,
-    run fuel p cfg = Err (EUnknown ctx fam key) /\ spec_ok p cfg (RejUnknown key) = false /\ guard_class p cfg = 3%N.
+  exists md fuel p cfg ctx fam key,
+    run md fuel p cfg = Err (EUnknown ctx fam key) /\ spec_ok md p cfg (RejUnknown key) = false /\ guard_class md p cfg = 3%N.
 Proof.
-  exists 24%nat, w3_p, w3_c, [K s_w], FKey, [s_class_path].
+  exists MDefaults, 24%nat, w3_p, w3_c, [K s_w], FKey, [s_class_path].
   destruct class_path_misnamed_refuted as [A [B [C D]]]. auto.
 Qed.
 
@@ -1157,9 +1157,9 @@ Proof.
     + intros [X|X]; [left; left; exact X|]. destruct (IH X) as [Y|Y]; [left; right; exact Y|right; exact Y].
 Qed.
 
-Lemma in_select_inv sb l k w : In (k, w) (snd (select sb l)) -> In (k, w) l \/ k = s_dest sb.
+Lemma in_select_inv md sb l k w : In (k, w) (snd (select md sb l)) -> In (k, w) l \/ k = s_dest sb.
 Proof.
-  rewrite select_spec. destruct (spec_selected sb l) as [s|]; [|left; assumption].
+  rewrite select_spec. destruct (spec_selected md sb l) as [s|]; [|left; assumption].
   simpl. intros H. apply in_remove_keys_inv in H.
   destruct (assoc (s_dest sb) l) as [[| |s0| |]|]; try (apply in_set_key_inv in H; exact H). left; exact H.
 Qed.
@@ -1188,7 +1188,7 @@ Definition ut_entry (p : parser) (sb : subs) (kw : str * cv) : list (list seg) :
        | None => und false false (p_args p) (CDict [kw])
        end.
 
-Lemma undeclared_sub p sb l : p_sub p = Some sb -> undeclared p (CDict l) = flat_map (ut_entry p sb) l.
+Lemma undeclared_sub md p sb l : p_sub p = Some sb -> undeclared md p (CDict l) = flat_map (ut_entry p sb) l.
 Proof. intros Hs. unfold undeclared, und_top. rewrite Hs. reflexivity. Qed.
 
 Lemma mem_false_assoc {A} k (m : list (str * A)) : mem_str k (map fst m) = false -> assoc k m = None.
@@ -1218,19 +1218,19 @@ Qed.
 Lemma schk_unk fuel : chk_unk (schk fuel).
 Proof. apply chk_action_unk. apply nested_unk. Qed.
 
-Theorem unknown_error_only_if_undeclared fuel p cfg ctx fam key :
-  wf_parser p = true -> run fuel p cfg = Err (EUnknown ctx fam key) -> undeclared p cfg <> [].
+Theorem unknown_error_only_if_undeclared md fuel p cfg ctx fam key :
+  wf_parser p = true -> run md fuel p cfg = Err (EUnknown ctx fam key) -> undeclared md p cfg <> [].
 Proof.
   intros W H.
-  assert (U : is_unk (run fuel p cfg)) by (rewrite H; exact Logic.I). clear H.
+  assert (U : is_unk (run md fuel p cfg)) by (rewrite H; exact Logic.I). clear H.
   destruct cfg as [| | |l|]; try (destruct U).
   unfold run in U. apply is_unk_bind in U.
   destruct (p_sub p) as [sb|] eqn:Hs.
-  - rewrite (undeclared_sub _ _ _ Hs).
+  - rewrite (undeclared_sub _ _ _ _ Hs).
     destruct U as [U|U].
     + destruct (top_apply_unk _ _ _ _ W Hs (chk_action_unk fuel true (nested_unk fuel true)) U) as [kw [A B]].
       eapply flat_map_ne; eauto.
-    + destruct (select sb l) as [chosen l'] eqn:S.
+    + destruct (select md sb l) as [chosen l'] eqn:S.
       destruct (s_req sb && _); [destruct U|].
       apply is_unk_bind in U. destruct U as [U|U].
       * destruct (first_failure _) as [|x] eqn:FF; [destruct U|].
@@ -1241,7 +1241,7 @@ Proof.
         destruct (str_eqb k (s_dest sb)) eqn:Ed.
         { destruct B as [<-|[]]. destruct Ue. }
         assert (In (k, w) l) as HInl.
-        { replace l' with (snd (select sb l)) in A by (rewrite S; reflexivity).
+        { replace l' with (snd (select md sb l)) in A by (rewrite S; reflexivity).
           apply in_select_inv in A. destruct A as [A|A]; [exact A|].
           subst k. rewrite str_eqb_refl in Ed. discriminate. }
         apply (flat_map_ne _ _ (k, w) HInl). unfold ut_entry. cbn [fst snd]. rewrite Ed.
@@ -1270,3 +1270,10 @@ Proof.
       unfold top_walk in HIn. rewrite Hs in HIn.
       eapply (walk_unk _ (schk_unk fuel)). exists e. split; [exact HIn|rewrite He; exact U].
 Qed.
+Definition ex_c_nosec : cv := (CDict [([97]%N, (CInt (1)%Z)); ([103]%N, (CDict [([120]%N, (CInt (2)%Z))])); ([119]%N, (CDict [([100]%N, (CInt (3)%Z)); ([112]%N, (CDict [([120]%N, (CInt (4)%Z))]))])); ([121]%N, (CDict [([99;108;97;115;115;95;112;97;116;104]%N, (CStr [67;49]%N)); ([105;110;105;116;95;97;114;103;115]%N, (CDict [([98]%N, (CInt (5)%Z)); ([101]%N, (CList [(CDict [([113]%N, (CInt (6)%Z))])]))]))])); ([101]%N, (CList [(CDict [([118]%N, (CInt (7)%Z))]); (CDict [([118]%N, (CInt (8)%Z))])])); ([115;117;98;99;111;109;109;97;110;100]%N, (CStr [102;105;116]%N))]).
+
+(* the subcommand is named but its section is missing: rejected in every mode, also when no defaults are merged in
+   (parse_object / parse_string with defaults=False), where only check_required's recursion sees it *)
+Lemma example_named_without_section :
+  forall md, exists ks, run md 24 ex_p ex_c_nosec = Err (EMissing [] ks) /\ missing_required md ex_p ex_c_nosec = map (map K) ks.
+Proof. intros []; eexists; vm_compute; split; reflexivity. Qed.
